@@ -61,6 +61,11 @@ def enumeration():
                         out.append(dict(b, ops=[["badvalue", "GENRE"]]))
                         if fmt == "ssc":
                             out.append(dict(b, ops=[["dropnotes"]]))
+                        if backup == "ok":          # a file already at the backup path: it is replaced by this call's original before the output is touched
+                            out.append(dict(b, ops=BASE_OPS, stale_bak=True))
+                            for which in ("bak", "out"):
+                                for kind in ("open", "write", "close"):
+                                    out.append(dict(b, ops=BASE_OPS, fault=[kind, which], stale_bak=True))
                         # a failed attempt first, then the retry on the same file (every fault point of the retry)
                         for pre in PRE:
                             out.append(dict(b, ops=BASE_OPS, before=pre))
@@ -102,6 +107,8 @@ def gen(rng, i, tier):
         c["ops"] = c["ops"] + [["badvalue", "GENRE"]]
     if rng.random() < 0.3:
         c["before"] = rng.choice(PRE)
+    if c["backup"] == "ok" and rng.random() < 0.3:
+        c["stale_bak"] = True
     if c["fmt"] == "ssc" and rng.random() < 0.12:
         # an input whose own chart cannot be serialised as it stands: a NOTEDATA section without note data
         c["data"] = ("#VERSION:0.83;\n#TITLE:t;\n#BPMS:0.000=120.000;\n#NOTEDATA:;\n#STEPSTYPE:dance-single;\n#CREDIT:c;\n"
@@ -123,6 +130,8 @@ def impl(c):
         if c["fault"]:
             target = (bak if c["fault"][1] == "bak" else (out or sc.input))
             fault = (c["fault"][0], target) if target else None
+        if c.get("stale_bak") and bak and bak != sc.input and bak != out:
+            sc.write_bytes(bak, c05.STALE)          # a file left at the backup path by an earlier run
         fsys = F.FaultFS(sc.inner, fault)
         kw = {"filesystem": fsys}
         if c["try"]:
@@ -257,6 +266,9 @@ def oracle(c, o):
     files = c05.canon_files(o["files"])
     inp, out, bak = c05.paths(c)
     before = {inp: c["data"]}
+    stale = bool(c.get("stale_bak") and bak and bak != inp and bak != out)
+    if stale:
+        before[bak] = c05.STALE.hex()
     if "pre" in o and c05.canon_files(o["pre"]["files"]) != before:
         return "an earlier attempt that did not save (%s) left the directory changed: %s" % (o["pre"]["exc"], sorted(c05.canon_files(o["pre"]["files"])))
     if c["backup"] in ("clash_input", "clash_output"):
@@ -284,7 +296,10 @@ def oracle(c, o):
         return "mutate raised %s (a file-system error) although no fault was injected on the file system it was given" % o["exc"]
     if o["exc"] == "OSError" and o.get("fault_fired") and bak and c["fault"] and c["fault"][1] == "out" and bak not in files:
         return "the output step failed, a backup had been requested, and no backup exists on the file system mutate was given"
-    if bak and bak in files and not (c["fault"] and c["fault"][1] == "bak") and o["entry"] is not None:
+    # a file that was already at the backup path counts as "the backup" only where this call must have replaced it:
+    # a normal end, or a failure of the output step (which comes after the backup)
+    must_be_written = o["exc"] is None and not o["body_exc"] or (o["exc"] == "OSError" and c["fault"] and c["fault"][1] == "out")
+    if bak and bak in files and not (c["fault"] and c["fault"][1] == "bak") and o["entry"] is not None and (not stale or must_be_written):
         if o.get("bak_parses_to") != ["ok", o["entry"]]:
             return "the backup was written (the call ended with %s), but it does not parse to the original simfile" % o["exc"]
     if o["exc"] == "OSError" and o.get("fault_fired") and bak is not None and (out is None or out == inp) and c["fault"] and c["fault"][1] == "out" and c["fault"][0] in ("write", "close"):
